@@ -439,6 +439,7 @@ func c16Data(r *rand.Rand) val.V {
 		// keys spelled like the reserved words (a member name may be any identifier name)
 		{K: "kw", V: val.Map(val.KV{K: "null", V: val.Int("int", 11)}, val.KV{K: "true", V: val.Str("yes")}, val.KV{K: "false", V: val.Int("int", 13)}, val.KV{K: "this", V: val.Map(val.KV{K: "typeof", V: val.Int("int", 17)})},
 			val.KV{K: "ctx", V: val.Str("c")}, val.KV{K: "typeof", V: val.Int("int", 19)}, val.KV{K: "kw", V: val.Int("int", 23)})},
+		{K: "__p", V: val.Int("int", 2)}, {K: "___p", V: val.Int("int", 3)}, {K: "_p", V: val.Map(val.KV{K: "__p", V: val.Str("deep")}, val.KV{K: "___p", V: val.Str("deeper")})},
 		{K: "lk", V: val.Map(val.KV{K: longKeyA, V: val.Int("int", 3)}, val.KV{K: longKeyB, V: val.Int("int", 4)})},
 		{K: "l", V: val.List(val.Int("int", 1), val.Str("x"))}, {K: "ss", V: val.Typed("strs", val.Str("p"), val.Str("q"))}, {K: "d", V: val.Dec("1.50")}, {K: "fn", V: val.Fn("id")},
 	}
@@ -447,7 +448,7 @@ func c16Data(r *rand.Rand) val.V {
 
 var longKeyA, longKeyB = strings.Repeat("k", 299) + "a", strings.Repeat("k", 299) + "b"
 
-var c16Keys = []string{longKeyA, longKeyB, longKeyA[:299], "null", "true", "false", "this", "ctx", "typeof", "kw", "Qty", "Price", "Note", "City", "Floor", "Name", "Age", "p", "a", "b", "c", "k", "z", "name", "x1", "len", "max", "now", "A", "S", "F", "M", "P", "Any", "Nil", "N", "T", "priv", "Zz", "missing", "tm", "st", "np", "$v"}
+var c16Keys = []string{longKeyA, longKeyB, longKeyA[:299], "__p", "___p", "_p", "null", "true", "false", "this", "ctx", "typeof", "kw", "Qty", "Price", "Note", "City", "Floor", "Name", "Age", "p", "a", "b", "c", "k", "z", "name", "x1", "len", "max", "now", "A", "S", "F", "M", "P", "Any", "Nil", "N", "T", "priv", "Zz", "missing", "tm", "st", "np", "$v"}
 
 // FollowCase: a name denotes the entry of the data map as it is now - whatever earlier evaluations on the same runner
 // read or assigned, and however the host changed the map since (another map, a single entry, its own map directly).
